@@ -43,7 +43,8 @@ MkTopo(pus, nodes) ==
    ncpus |-> [n \in nodes |-> NodeCpus[n] \cap pus],
    nmem |-> [n \in nodes |-> NodeMem[n]],
    objs |-> {o \in ObjIds : ObjPresent(o, pus, nodes)},
-   ocpus |-> [o \in ObjIds |-> ObjCpus[o] \cap pus]]
+   ocpus |-> [o \in ObjIds |-> ObjCpus[o] \cap pus],
+   ohas |-> [o \in ObjIds |-> TRUE]]
 NodeSeqOf(topo) == SelectSeq(NodeSeq, LAMBDA n : n \in topo.nodes)
 
 \* hwloc_topology_restrict() on the sets: [ret, pus, nodes]
